@@ -591,6 +591,32 @@ def opSpatialBeam : Op K := fun n a =>
   let u := gaussSolve size A f
   u.extract 0 (6 * ny)
 
+/-- ints: num_x num_y sym ; floats: span chord span_cos chord_cos offset[3] → mesh (half when symmetric) -/
+def opGenRectMesh : Op K := fun n a =>
+  let nx := n[0]!; let ny := n[1]!; let sym := flag n 2
+  let m := MeshGen.withOffset (MeshGen.rectMesh nx ny (at_ a 0) (at_ a 1) (at_ a 2) (at_ a 3)) (pts a 4 0)
+  outMesh #[] nx (if sym then (ny + 1) / 2 else ny) m
+
+/-- ints: nx ny left(1)/right(0) ; floats: half mesh → full mesh [nx, 2ny-1, 3] -/
+def opGetFullMesh : Op K := fun n a =>
+  let nx := n[0]!; let ny := n[1]!
+  outMesh #[] nx (2 * ny - 1) (if flag n 2 then MeshGen.fullFromLeft ny (mesh a 0 ny) else MeshGen.fullFromRight ny (mesh a 0 ny))
+
+/-- ints: nx_old ny num_x ; floats: chord_cos_spacing mesh → new mesh [num_x, ny, 3] -/
+def opAddChordwisePanels : Op K := fun n a =>
+  let nxo := n[0]!; let ny := n[1]!; let numX := n[2]!
+  outMesh #[] numX ny (MeshGen.addChordwisePanels nxo numX (at_ a 0) (mesh a 1 ny))
+
+/-- decision logic: ints = kind, params… → outcome code (0 ok, 1 ValueError, 2 NameError) as a float -/
+def opValidate : Op K := fun n _ =>
+  let kind := n.getD 0 0
+  let o : Validate.Outcome :=
+    if kind = 0 then Validate.generateMesh (n.getD 1 0) (flag n 2) (flag n 3)
+    else if kind = 1 then Validate.groundEffect (flag n 1) (flag n 2)
+    else if kind = 2 then Validate.structModel (n.getD 1 0) (flag n 2) (flag n 3)
+    else Validate.sections (n.getD 1 0) (flag n 2) (n.getD 3 0) (n.getD 4 0) (n.getD 5 0) (n.getD 6 0) (n.getD 7 0) (n.getD 8 0)
+  #[((o.code : Nat) : K)]
+
 def ops : List (String × Op K) := [
   ("ComputeNodes", opComputeNodes),
   ("LoadTransfer", opLoadTransfer),
@@ -654,7 +680,11 @@ def ops : List (String × Op K) := [
   ("LocalStiffTransformed", opLocalStiffTransformed),
   ("CreateRHS", opCreateRHS),
   ("FEMSolve", opFEMSolve),
-  ("SpatialBeam", opSpatialBeam)
+  ("SpatialBeam", opSpatialBeam),
+  ("GenRectMesh", opGenRectMesh),
+  ("GetFullMesh", opGetFullMesh),
+  ("AddChordwisePanels", opAddChordwisePanels),
+  ("Validate", opValidate)
 ]
 
 end OAS.Driver
